@@ -396,6 +396,49 @@ example : Spec.specOK P7 Cfg.default .query tyD3 (.struct (zeroFs tyD3)) (srcXY 
     (.ok (.struct [.struct [.ptr (.struct [.struct [.int 7, .uint 44]])]])) = false :=
   by decide
 
+/-! ### the other as-shipped behaviours (K04c–K04g), each against the repaired model -/
+
+def tyEP : List Fld := [(hdr "In" true, .ptr tyIn)]
+def fTags : FieldInfo :=
+  { index := [0], name := B "T", tagName := B "tags", aliases := [B "t"], ty := .slice (.prim .str), dflt := [], typedDefault := none }
+def gAlias : Getter := { src := { kind := .query, kvs := [(B "t", [B "a", B "b"])] } }
+def gNested : Getter := { src := { kind := .query, kvs := [(B "n.m.a", [B "v"])] }, pre := B "n.", nested := true }
+
+/-- **K04c.** `FieldByIndex` through the nil embedded pointer of a zero `struct{ *In }` panics; the
+    repaired loop allocates the pointer when — and only when — a promoted field receives a value. -/
+theorem nil_embedded_asis_witness :
+    reachAsIs (.struct (zeroFs tyEP)) [0, 0] = none ∧
+    okVal (bind P7 Cfg.default .query (.struct tyEP) (.struct (zeroFs tyEP)) (srcXY "7" "7")) =
+      some (.struct [.ptr (.struct [.int 7, .uint 7])]) ∧
+    okVal (bind P7 Cfg.default .query (.struct tyEP) (.struct (zeroFs tyEP)) { kind := .query, kvs := [] }) =
+      some (.struct [.nil]) := by
+  refine ⟨by decide, by decide, by decide⟩
+
+/-- **K04d.** The value arrives under the alias `t`: `GetAll` with the primary name finds nothing,
+    with the key that matched it finds both values. -/
+theorem slice_alias_asis_witness :
+    (lookupField gAlias fTags).1 = B "t" ∧
+    gAlias.getAll (sliceKeyAsIs fTags (lookupField gAlias fTags).1) = [] ∧
+    gAlias.getAll (lookupField gAlias fTags).1 = [B "a", B "b"] := by
+  refine ⟨by decide, by decide, by decide⟩
+
+/-- **K04e, K04g, K04f.** A `*[]string` field with a value panicked (`none`), `WithMaxMapSize(3)`
+    rejected an empty map on the fallback capacity 8, a map below a nested struct saw no entries. -/
+theorem ptrslice_maplimit_nestedmap_asis_witness :
+    setSliceAsIs P0 Cfg.default (.ptr (.slice (.prim .str))) .nil [B "a"] = none ∧
+    okVal (match setSlice P0 Cfg.default (.ptr (.slice (.prim .str))) .nil [B "a"] with
+      | .ok v => Outcome.ok v
+      | .error e => .err e) = some (.ptr (.list [.str (B "a")])) ∧
+    mapLimitAsIs { Cfg.default with maxMap := 3 } 0 = true ∧
+    okVal (match setMap P0 { Cfg.default with maxMap := 3 } (.map (.prim .str)) .nil gAlias (B "m") with
+      | .ok v => Outcome.ok v
+      | .error e => .err e) = some (.map []) ∧
+    mapVisibleAsIs gNested = false ∧
+    okVal (match setMap P0 Cfg.default (.map (.prim .str)) .nil gNested (B "m") with
+      | .ok v => Outcome.ok v
+      | .error e => .err e) = some (.map [(B "a", .str (B "v"))]) := by
+  refine ⟨by decide, by decide, by decide, by decide, by decide, by decide⟩
+
 /-! ### the conversion theorems (proved in `Lemmas/BindConv`) -/
 
 /-- **K04b, repaired code.** A successful integer conversion yields exactly the parsed number, and
